@@ -137,7 +137,7 @@ def replay_random(prop, path, cfg_name, want_props):
     trace = os.path.join(d, "replay.ndjson")
     rep = os.path.join(d, "replay_report.json")
     if c.get("mode") == "io":
-        common.run_bin("bft_drive", ["io", c["behaviours"], trace, rep], timeout=3000)
+        common.run_bin("bft_drive", ["io", c["behaviours"], trace, rep], timeout=900)
         run = {"config": "replica_io", "seed": 0, "steps": 0, "trace": trace, "report": common.load_report(rep), "io": True}
         import shutil
         shutil.copy(c["behaviours"], os.path.join(d, "io_behaviours.ndjson"))
@@ -185,7 +185,7 @@ def run_io(prop, tier, seed):
     common.write_ndjson(bp, behs)
     trace = os.path.join(d, "io_trace.ndjson")
     rep = os.path.join(d, "io_report.json")
-    rc, so, se = common.run_bin("bft_drive", ["io", bp, trace, rep], timeout=3000)
+    rc, so, se = common.run_bin("bft_drive", ["io", bp, trace, rep], timeout=(600 if tier == "quick" else 3000))
     if rc != 0 and not os.path.exists(rep):
         raise common.ToolError(f"bft_drive io failed: {se[-800:]}")
     r = common.load_report(rep)
